@@ -319,9 +319,22 @@ def run(eng: Engine, ck: Check):
               'the term map keeps the items of the removed directory as long as anything references them (e.g. the returned directory object): '
               'query() still returns files that are no longer shared while get_stats() does not count them', construct=f'{f.qualname} rebuilds term map')
     gs_ = eng.func(SHARES, 'SharesManager.get_stats')
-    src = unparse(gs_.node)
-    ok = src.count('for directory in self._shared_directories') == 2 and 'len(directory.items)' in src and 'item.subdir for item in directory.items' in src
-    ck.ob('R-C07-INDEX', gs_, gs_.node, 'folder/file counts are computed from the items of the currently shared directories', ok, '', construct='stats from index')
+    iters = [(n.iter, n.target) for n in walk_local(gs_.node) if isinstance(n, (ast.For, ast.comprehension))]
+    dir_vars = {unparse(t) for it, t in iters if unparse(it) == 'self._shared_directories'}
+    item_iters = [(it, t) for it, t in iters if unparse(it) != 'self._shared_directories']
+    facts = {
+        'iterates the currently shared directories': bool(dir_vars),
+        'every other iteration is over the items of such a directory': all(
+            isinstance(it, ast.Attribute) and it.attr == 'items' and unparse(it.value) in dir_vars for it, t in item_iters),
+        'files = sum of len(directory.items)': any(bd['d'] in dir_vars for _, bd in pfind(gs_.node, 'len($d.items)')),
+        'folders = distinct item.subdir per directory': any(
+            isinstance(c_, (ast.SetComp, ast.GeneratorExp, ast.ListComp)) and isinstance(c_.elt, ast.Attribute) and c_.elt.attr == 'subdir' and
+            len(c_.generators) == 1 and unparse(c_.elt.value) == unparse(c_.generators[0].target) and not c_.generators[0].ifs and
+            (isinstance(c_, ast.SetComp) or (isinstance(parent(c_), ast.Call) and call_name(parent(c_)) == 'set'))
+            for c_ in walk_local(gs_.node)),
+    }
+    ok = all(facts.values())
+    ck.ob('R-C07-INDEX', gs_, gs_.node, 'folder/file counts are computed from the items of the currently shared directories', ok, f'not established: {[k_ for k_, v_ in facts.items() if not v_]}', construct='stats from index')
     rb_ = eng.func(SHARES, 'SharesManager.rebuild_term_map')
     ok = any(isinstance(n, ast.Assign) and unparse(n.targets[0]) == 'self._term_map' and unparse(n.value) == '{}' for n in walk_local(rb_.node)) and \
         any(isinstance(n, ast.For) and 'shared_directories' in unparse(n.iter) for n in walk_local(rb_.node)) and bool(calls_on(rb_.node, '_build_term_map'))
